@@ -12,6 +12,7 @@ package main
 // model (QuaiVerif.Model.Crash) reasons about; the harness reports the recorded schedule in the model's terms.
 
 import (
+	"os"
 	"bytes"
 	"fmt"
 	"strings"
@@ -182,6 +183,24 @@ func headConsistency(n *zoneNode) string {
 			for _, x := range doubleRemovals(n.db, b) {
 				ms.Remove(x.Bytes())
 				known++
+			}
+		}
+	}
+	if ms.Hash() != hd.UTXORoot() && os.Getenv("QVH_DEBUG") != "" {
+		fmt.Fprintln(os.Stderr, "DBG c11 mismatch: head", hd.NumberArray(), "entries", len(sc.hashes), "known", known, "setsize", rawdb.ReadUTXOSetSize(n.db, hd.Hash()))
+		for i := uint64(1); i <= hd.NumberU64(common.ZONE_CTX); i++ {
+			if b := n.hc.GetBlockByNumber(i); b != nil {
+				sp, _ := rawdb.ReadSpentUTXOs(n.db, b.Hash())
+				tr, _ := rawdb.ReadTrimmedUTXOs(n.db, b.Hash())
+				ck, _ := rawdb.ReadCreatedUTXOKeys(n.db, b.Hash())
+				fmt.Fprintln(os.Stderr, "   blk", i, "spent", len(sp), "trimmed", len(tr), "created", len(ck), "dr", len(doubleRemovals(n.db, b)), "setsize", rawdb.ReadUTXOSetSize(n.db, b.Hash()))
+				for ti, tx := range b.Transactions() {
+					if tx.Type() == types.QiTxType {
+						fmt.Fprintln(os.Stderr, "      qi tx", ti, "ins", len(tx.TxIn()), "outs", len(tx.TxOut()), "datalen", len(tx.Data()))
+					} else if tx.Type() == types.ExternalTxType {
+						fmt.Fprintln(os.Stderr, "      etx", ti, "type", tx.EtxType(), "value", tx.Value(), "toQi", tx.To().IsInQiLedgerScope())
+					}
+				}
 			}
 		}
 	}
@@ -360,12 +379,76 @@ func runC11(seed uint64, n int, outDir string, replay string) {
 			wy.qiBoost = 1
 			var B []cwStep
 			for i, nb := 0, 1+rc.Intn(3); i < nb; i++ {
+				keysOf := func() map[string]bool {
+					m := map[string]bool{}
+					it := Y.db.NewIterator(rawdb.UtxoPrefix, nil)
+					for it.Next() {
+						if len(it.Key()) == rawdb.UtxoKeyLength {
+							m[string(it.Key())] = true
+						}
+					}
+					it.Release()
+					return m
+				}
+				beforeKeys := keysOf()
 				st, err := wy.step()
+				if err == nil && os.Getenv("QVH_DEBUG") != "" {
+					after := keysOf()
+					exp := map[string]bool{}
+					for k := range beforeKeys {
+						exp[k] = true
+					}
+					ck, _ := rawdb.ReadCreatedUTXOKeys(Y.db, st.blk.Hash())
+					for _, k := range ck {
+						if len(k) >= rawdb.UtxoKeyLength {
+							exp[string(k[:rawdb.UtxoKeyLength])] = true
+						}
+					}
+					sp, _ := rawdb.ReadSpentUTXOs(Y.db, st.blk.Hash())
+					for _, x := range sp {
+						delete(exp, string(rawdb.UtxoKey(x.TxHash, x.Index)))
+					}
+					tr, _ := rawdb.ReadTrimmedUTXOs(Y.db, st.blk.Hash())
+					for _, x := range tr {
+						delete(exp, string(rawdb.UtxoKey(x.TxHash, x.Index)))
+					}
+					seenCK := map[string]int{}
+					for _, k := range ck {
+						if len(k) >= rawdb.UtxoKeyLength {
+							kk := string(k[:rawdb.UtxoKeyLength])
+							seenCK[kk]++
+							if seenCK[kk] > 1 || beforeKeys[kk] {
+								txh, idx, _ := rawdb.ReverseUtxoKey(k[:rawdb.UtxoKeyLength])
+								who := "?"
+								for ti, tx := range st.blk.Transactions() {
+									if tx.Hash() == txh || (tx.Type() == types.ExternalTxType && tx.OriginatingTxHash() == txh) {
+										who = fmt.Sprintf("tx %d type %d etxtype %d", ti, tx.Type(), tx.EtxType())
+									}
+								}
+								fmt.Fprintf(os.Stderr, "DBG Y %v: created key %x:%d again (existed before the block: %v) by %s\n", st.blk.NumberArray(), txh.Bytes()[:6], idx, beforeKeys[kk], who)
+							}
+						}
+					}
+					for k := range exp {
+						if !after[k] {
+							fmt.Fprintf(os.Stderr, "DBG Y %v: expected but not in DB: %x (created-by-block=%v)\n", st.blk.NumberArray(), []byte(k)[2:10], !beforeKeys[k])
+						}
+					}
+					for k := range after {
+						if !exp[k] {
+							fmt.Fprintf(os.Stderr, "DBG Y %v: in DB but not expected: %x\n", st.blk.NumberArray(), []byte(k)[2:10])
+						}
+					}
+				}
 				if err != nil {
 					o.Violate("c07-own-block-rejected", fmt.Sprintf("branch B: %v", err))
 					return
 				}
 				B = append(B, *st)
+				if os.Getenv("QVH_DEBUG") != "" {
+					sc := scanLedger(Y.db, Y.loc)
+					fmt.Fprintln(os.Stderr, "DBG Y block", st.blk.NumberArray(), "rootok", sc.root() == st.blk.UTXORoot(), "setsize", rawdb.ReadUTXOSetSize(Y.db, st.blk.Hash()), "entries", len(sc.hashes), "dr", len(doubleRemovals(Y.db, st.blk)), "msg:", headConsistency(Y))
+				}
 			}
 			for _, s := range B {
 				if err := X.addSide(s.blk, s.inbound); err != nil {
@@ -387,6 +470,26 @@ func runC11(seed uint64, n int, outDir string, replay string) {
 			}
 			o.Count("reorg-schedule:" + strings.Join(compress(sched), ","))
 			want := ledgerString(X)
+			if os.Getenv("QVH_DEBUG") != "" {
+				sx, sy := scanLedger(X.db, X.loc), scanLedger(Y.db, Y.loc)
+				mx := map[string]bool{}
+				for _, u := range sx.utxos {
+					mx[u] = true
+				}
+				my := map[string]bool{}
+				for _, u := range sy.utxos {
+					my[u] = true
+					if !mx[u] {
+						fmt.Fprintln(os.Stderr, "DBG reorg: only in Y:", u)
+					}
+				}
+				for _, u := range sx.utxos {
+					if !my[u] {
+						fmt.Fprintln(os.Stderr, "DBG reorg: only in X:", u)
+					}
+				}
+				fmt.Fprintln(os.Stderr, "DBG reorg: X utxos", len(sx.utxos), "Y utxos", len(sy.utxos), "lockups", len(sx.lockups), len(sy.lockups), "abandoned", len(w.steps)-len(Y.hc.GetBlockByHash(B[0].blk.ParentHash(common.ZONE_CTX)).NumberArray())+0, "B", len(B))
+			}
 			tip := B[len(B)-1].blk
 			for _, i := range pick(len(steps), c == 0) {
 				probe("reorg", image, steps, i, func(nd *zoneNode) error {
